@@ -11,6 +11,7 @@ import (
 	sdk "github.com/cosmos/cosmos-sdk/types"
 
 	"github.com/ethereum/go-ethereum/common/math"
+	ethparams "github.com/ethereum/go-ethereum/params"
 )
 
 // CalculateBaseFee calculates the base fee for the next block based on current block.
@@ -28,12 +29,20 @@ func (k Keeper) CalculateBaseFee(ctx sdk.Context) sdkmath.Int {
 		gasLimit = new(big.Int).SetUint64(math.MaxUint64)
 	}
 
-	nextBaseFee := misc.CalcBaseFee(k.evmKeeper.GetChainConfig(ctx), &ethtypes.Header{
-		Number:   big.NewInt(ctx.BlockHeight()),
-		GasLimit: gasLimit.Uint64(),
-		GasUsed:  ctx.BlockGasMeter().GasConsumedToLimit(),
-		BaseFee:  params.BaseFee.BigInt(),
-	})
+	var nextBaseFee *big.Int
+	if gasLimit.Uint64()/ethparams.ElasticityMultiplier == 0 {
+		// The gas target (gas limit / elasticity multiplier) is zero when max gas is 0 or 1,
+		// there is nothing to measure the gas used against and go-ethereum would divide by the zero target,
+		// so keep the base fee as is.
+		nextBaseFee = params.BaseFee.BigInt()
+	} else {
+		nextBaseFee = misc.CalcBaseFee(k.evmKeeper.GetChainConfig(ctx), &ethtypes.Header{
+			Number:   big.NewInt(ctx.BlockHeight()),
+			GasLimit: gasLimit.Uint64(),
+			GasUsed:  ctx.BlockGasMeter().GasConsumedToLimit(),
+			BaseFee:  params.BaseFee.BigInt(),
+		})
+	}
 
 	// Set global min gas price as lower bound of the base fee, transactions below
 	// the min gas price don't even reach the mempool.
